@@ -95,6 +95,8 @@ impl Prop for C11 {
             rebuild: 1,
             extra: 0,
             pressure: 1,
+            mass_delete: 0,
+            big: 0,
         };
         let cfg = EvCfg {
             authors: 2,
@@ -103,11 +105,15 @@ impl Prop for C11 {
             extreme_ids: false,
             tag_values: 0,
             tag_names: 0,
+            narrow: false,
         };
         history(w, cfg, tier.pick(35, 120)).prop_map(|ops| Case { ops }).boxed()
     }
     fn label_floors(&self) -> Vec<(&'static str, f64)> {
-        vec![("accepted-request", 0.6), ("covered-store-refused", 0.3), ("non-monotone-requests", 0.1)]
+        vec![("accepted-request", 0.6), ("covered-store-refused", 0.3), ("non-monotone-requests", 0.06)]
+    }
+    fn release_fraction(&self, tier: Tier) -> f64 {
+        tier.pick(0.3, 0.5)
     }
     fn max_shrink_iters(&self) -> u32 {
         400
